@@ -6,6 +6,7 @@
    task placed by the loop lies inside the horizon. *)
 From Coq Require Import List Arith.
 Require Import SP.Model.Sched SP.Proofs.SchedInv SP.Proofs.SchedMain SP.Proofs.SchedFinal.
+Require Import SP.Model.Alap SP.Proofs.AlapProofs.
 
 Theorem C11_slots_in_horizon : forall p b, In b (bookings (schedule p)) -> b_slot b <= p_upper p.
 Proof. intros p. apply (inv_range p _ (schedule_inv p)). Qed.
@@ -22,3 +23,12 @@ Proof.
   - destruct (G9 Hn) as (C & _). apply Nat.lt_le_incl. exact C.
 Qed.
 Print Assumptions C11_dates_in_horizon.
+
+(* ---- backward (ALAP) mode: the project record is read backwards (Model/Alap.v: t_deps = successor edges,
+   t_pin = own end, t_lb = earliest deadline of the enclosing containers, n = p_upper slots) and the schedule
+   is the mirror image of the forward schedule of the mirrored project *)
+Theorem C11_alap : forall p,
+  (forall t f e, alap_leaf_dates p t = Some (f, e) -> f <= e /\ e <= p_upper p) /\
+  (forall b, In b (alap_bookings p) -> b_slot b < p_upper p).
+Proof. intros p. split; [exact (alap_dates_in_horizon p)|intros b Hb; exact (proj1 (alap_working p b Hb))]. Qed.
+Print Assumptions C11_alap.
